@@ -12,6 +12,7 @@ CFG = {
                           'Dlis.C07.origin_backfilled', 'Dlis.C07.origin_choice', 'Dlis.run_invariants',
                           'Dlis.C07.accepted_references_resolve', 'Dlis.C07.foreign_reference_refused',
                           'Dlis.C07.own_references_accepted', 'Dlis.C07.frame_channels_registered',
+                          'Dlis.checkObjects_follows_order', 'Dlis.Obligations.checkOrder_eq', 'Dlis.Obligations.writeSteps_eq',
                           'Dlis.C18.logical_files_isolated']),
     'C09': dict(theorems=['Dlis.C09.generator_shape', 'Dlis.C09.header_fields', 'Dlis.C09.defining_origin_first',
                           'Dlis.C04.empty_set_no_record', 'Dlis.C04.fileHeader_parses', 'Dlis.run_invariants',
